@@ -27,7 +27,7 @@ def simulate(mod):
 
 def grad_of(mod):
     """gradient of a simple loss w.r.t. all radii through integrate"""
-    m = mod
+    m = copy.deepcopy(mod)          # the harness must not edit the modules under comparison (their trainables are part of α)
     m.delete_trainables()
     m.make_trainable("radius", verbose=False)
     p = m.get_parameters()
